@@ -64,7 +64,9 @@ func Tokenize(s string) (toks Tokens) {
 			if tok.Offset == -1 {
 				tok.Offset = i
 			}
-			tok.Text += string(r)
+			// Take the bytes of the string, not the decoded rune: an invalid
+			// byte decodes to U+FFFD, whose encoding is longer than the byte.
+			tok.Text += s[i : i+size]
 		}
 		i += size
 	}
